@@ -73,9 +73,15 @@ def is_alias(e):
 
 
 def _reads(e):
-    """dotted names read by an expression (a.b.c contributes 'a', 'a.b', 'a.b.c')"""
+    """dotted names read by an expression (a.b.c contributes 'a', 'a.b', 'a.b.c'); names bound by its own comprehensions are not free"""
     out = set()
+    own = set()
     for n in ast.walk(e):
+        if isinstance(n, ast.comprehension):
+            own |= {x.id for x in ast.walk(n.target) if isinstance(x, ast.Name)}
+    for n in ast.walk(e):
+        if isinstance(n, ast.Name) and n.id in own:
+            continue
         if isinstance(n, ast.Name):
             out.add(n.id)
         elif isinstance(n, ast.Attribute):
@@ -170,8 +176,31 @@ class _Sub(ast.NodeTransformer):
         return n
 
 
+def _split_unpacking(fn):
+    """a, b = (x, y)  ->  a = x; b = y   when no right-hand side reads a left-hand name (no swap) and every part is pure"""
+    changed = False
+    for s in list(A.walk_local(fn)):
+        if isinstance(s, ast.Assign) and len(s.targets) == 1 and isinstance(s.targets[0], (ast.Tuple, ast.List)) and isinstance(s.value, (ast.Tuple, ast.List)) \
+                and len(s.targets[0].elts) == len(s.value.elts) and all(isinstance(t, ast.Name) for t in s.targets[0].elts) \
+                and not any(isinstance(v, ast.Starred) for v in s.value.elts):
+            lhs = {t.id for t in s.targets[0].elts}
+            if any(lhs & _reads(v) for v in s.value.elts) or not all(is_pure(v) for v in s.value.elts):
+                continue
+            blk = A.block_of(s)
+            if not blk:
+                continue
+            p, f, lst, i = blk
+            new = [ast.copy_location(ast.Assign(targets=[t], value=v), s) for t, v in zip(s.targets[0].elts, s.value.elts)]
+            lst[i:i + 1] = new
+            changed = True
+    if changed:
+        ast.fix_missing_locations(fn)
+        A_relink(fn)
+    return changed
+
+
 def normalize_function(fn, max_rounds=300):
-    changed_any = False
+    changed_any = _split_unpacking(fn)
     params = set(A.param_names(fn))
     for _ in range(max_rounds):
         changed = False
@@ -228,8 +257,9 @@ def normalize_function(fn, max_rounds=300):
                     mine.append((ld, us))
                 elif ds is None:
                     # a load whose definition is ambiguous: if this definition could be among them, do not touch the name at all
-                    safe = False
-                    break
+                    if _may_reach(s, us, fn):
+                        safe = False
+                        break
             if not safe or not mine:
                 continue
             reads = _reads(v)
@@ -269,6 +299,32 @@ def normalize_function(fn, max_rounds=300):
         if not changed:
             break
     return changed_any
+
+
+def _order(fn):
+    out = {}
+
+    def rec(n):
+        if isinstance(n, ast.stmt):
+            out[id(n)] = len(out)
+        for ch in ast.iter_child_nodes(n):
+            if isinstance(ch, A.FUNC_TYPES) or isinstance(ch, ast.ClassDef):
+                continue
+            rec(ch)
+    for st in fn.body:
+        rec(st)
+    return out
+
+
+def _may_reach(s, us, fn):
+    """can the definition statement s reach the statement us?  (us follows s in program order, or a loop encloses both)"""
+    for a in A.ancestors(s):
+        if isinstance(a, (ast.For, ast.While, ast.AsyncFor)) and (a is us or A.is_ancestor(a, us)):
+            return True
+        if isinstance(a, A.FUNC_TYPES):
+            break
+    o = _order(fn)
+    return o.get(id(us), 0) >= o.get(id(s), 0)
 
 
 def _in_header_of_own_block(ld, us):
